@@ -89,3 +89,16 @@ Example ex_history_nonempty :
   let x := irun (iinit 1 0 ex_progs) [0;0;0;0;0;1;1;1;1;1;0;0;0;0] in
   ireach 1 0 ex_progs x /\ plog x = [5; 7] /\ qlog x = [5].
 Proof. split; [apply ireach_irun; constructor | vm_compute; auto]. Qed.
+
+(* ---- counter-shift invariance (justifies the biased start of the lock-step
+   harness: real counters start at start + bias, bias a multiple of 2^k, and
+   the values of the accesses to high/low are reported minus bias) ----
+   RingShift.shift_trace D adds D to the value of exactly those events
+   [tid; loc; kind; val] with loc 0 or 1 and kind other than 909 / 919. *)
+From Coq Require ZArith.
+From LF Require RingShift.
+Theorem ring_shift_invariant : forall k start d progs sch dmax,
+  run_all M (init k (start + d * 2 ^ k) progs) [] sch dmax =
+  RingShift.shift_trace (BinInt.Z.of_nat (d * 2 ^ k)) (run_all M (init k start progs) [] sch dmax).
+Proof. exact RingShift.ring_shift_invariant_run. Qed.
+Print Assumptions ring_shift_invariant.
